@@ -165,7 +165,7 @@ def codemod_shards(tier, seed, per_shard_quick, per_shard_thorough, kinds=("plai
 
 SWEEP_PART_OPS = (
     [[["wrap", k]] for k in sorted(progspace.WRAPS)]
-    + [[["tabs"], ["wrap", "def"]], [["comment"]], [["alias"]], [["dupimport"]]]
+    + [[["tabs"], ["wrap", "def"]], [["comment"]], [["alias"]], [["dupimport"]], [["mlimport"]]]
     + [[["addarg", k, s_]] for k in (0, 1) for s_ in ("pos", "kw", "star", "comma")]
     + [[["quote", k, s_]] for k in (0, 1, 2) for s_ in ("flip", "inject", "flipinject", "mix")]
     + [[["nest", k]] for k in (0, 1, 2)]
